@@ -217,8 +217,8 @@ def check_forms(ctx):
         fn = ctx.prog.func(SA, q, R)
         bad = []
         for n in A.walk_local(fn):
-            if isinstance(n, ast.Subscript) and ("data.t" in A.unparse(n.value) or "_t_bmjd" in A.unparse(n.value) or "phase(" in A.unparse(n.value)) and not isinstance(n.slice, ast.Constant):
-                bad.append(n)
+            if isinstance(n, ast.Subscript) and ("data.t" in A.unparse(n.value) or "_t_bmjd" in A.unparse(n.value) or "phase(" in A.unparse(n.value)) and A.const_value(n.slice) is None:
+                bad.append(n)   # (constant positions of the time-sorted arrays, e.g. _t_bmjd[-1] - _t_bmjd[0], are order-free: RVData sorts, C15-LOCK)
         idx0 = [n for n in A.walk_local(fn) if isinstance(n, ast.Subscript) and "_t_bmjd" in A.unparse(n.value) and isinstance(n.slice, (ast.Constant, ast.UnaryOp))]
         ctx.check("C19-PERM", fn, "%s uses per-observation arrays only through order-free reducers" % q, not bad,
                   "indexes a per-observation array positionally (`%s`)" % (A.unparse(bad[0])[:50] if bad else ""), key=q + ":perm", nontrivial=False)
